@@ -42,6 +42,23 @@ def taint(doc):
     return n
 
 
+ESCAPE_SHAPES = ('a %s b\n', '# h %s\n', '*e %s e*\n', '| %s |\n|---|\n| x %s |\n', '[t %s t](/u)\n', '> - q %s\n')
+
+
+def check_escape_pair(ctx, shape, ch):
+    ctx.ev()
+    esc_text, ref_text = shape.replace('%s', '\\' + ch), shape.replace('%s', '&#%d;' % ord(ch))
+    try:
+        a, b = mt.render(esc_text, 'LaTeX'), mt.render(ref_text, 'LaTeX')
+    except Exception as e:  # noqa
+        ctx.count('ambient', 'C01:' + mt.exc_site(e))
+        return
+    ctx.count('scan', 'escape-vs-reference pairs')
+    if a != b:
+        ctx.violation('escape-differs-from-reference', 'char=%s' % ch, {'kind': 'escape-pair', 'shape': shape, 'ch': ch, 'text': esc_text},
+                      problem='backslash escape and numeric reference of %r render differently' % ch, observed=a, reference_form=b)
+
+
 def check(ctx, text, source):
     ctx.ev()
     case = {'text': text, 'source': source}
@@ -173,6 +190,15 @@ def run(ctx):
         from .. import gen
     except ImportError:
         gen = None
+    # a character written as a backslash escape and the same character written as a numeric reference are the same text:
+    # the two renderings must be identical (decided without taint - sentinels make an escaped character three characters long)
+    import string as _string
+    k = 0
+    for ch in _string.punctuation:
+        for shape in ESCAPE_SHAPES:
+            k += 1
+            if k % ctx.nshards == ctx.shard:
+                check_escape_pair(ctx, shape, ch)
     # \verb needs a delimiter that does not occur in the code span: code spans that use up all punctuation characters but one
     # (and, with the digits, all but one digit) walk the renderer's whole list of candidates - every choice must be a valid one
     import string
@@ -244,7 +270,10 @@ def finalize(m, tier):
 
 
 def replay(ctx, case):
-    check(ctx, case['text'], case.get('source', 'replay'))
+    if case.get('kind') == 'escape-pair':
+        check_escape_pair(ctx, case['shape'], case['ch'])
+    else:
+        check(ctx, case['text'], case.get('source', 'replay'))
 
 
 import os as _os  # noqa: E402
